@@ -191,6 +191,32 @@ func (st *State) compWF(key string, t Term) {
 	if strings.HasPrefix(key, "MC:") {
 		st.assume(mkEq(mkSelect(t, tZero), tZero))
 	}
+	// heap well-formedness: every reference stored in the heap is allocated
+	if kind := compRefKind[key]; kind != 0 && st.next.S != "" {
+		var vars []string
+		leaf := t
+		so := t.Sort
+		n := 0
+		for strings.HasPrefix(string(so), "(Array ") {
+			v := fmt.Sprintf("wf%d", n)
+			n++
+			vars = append(vars, fmt.Sprintf("(%s %s)", v, keySortOf(so)))
+			leaf = mkSelect(leaf, Term{v, keySortOf(so)})
+			so = elemSortOf(so)
+		}
+		if len(vars) == 0 {
+			return
+		}
+		r := leaf
+		switch kind {
+		case 2:
+			r = app(SInt, "ival", leaf)
+		case 3:
+			r = app(SInt, "sarr", leaf)
+		}
+		// only allocated objects (first index below the allocation counter) are constrained
+		st.emit(fmt.Sprintf("(assert (forall (%s) (! (=> (< wf0 %s) (and (>= %s 0) (<= (+ (* %d %s) %d) %s))) :pattern (%s))))", strings.Join(vars, " "), st.next.S, r.S, allocFactor, r.S, allocFactor, st.next.S, leaf.S))
+	}
 }
 
 type snapshot struct {
